@@ -165,7 +165,7 @@ def siamese : Prog :=
    { kind := .conv, a := 0, cin := 3, cout := 4, k0 := 3, k1 := 3, o0 := 4, o1 := 4 },
    { kind := .pass, a := 3 },
    { kind := .conv, a := 2, cin := 4, cout := 6, o0 := 4, o1 := 4 },
-   { kind := .conv, a := 4, cin := 4, cout := 6, o0 := 4, o1 := 4, dup := true, ta := 2 },
+   { kind := .conv, a := 4, cin := 4, cout := 6, o0 := 4, o1 := 4, dup := true, ta := 2, tf := 5 },
    { kind := .add, a := 5, b := 6 },
    { kind := .flatten, a := 7, mult := 16 },
    { kind := .linear, a := 8, lt := .linear, cin := 96, cout := 2 },
@@ -177,6 +177,44 @@ the module's single in-quantizer could only be right for one of its call sites. 
 theorem untied_call_sites_differ :
     inQ siamese (.layer 5) = inQ siamese (.layer 6) ∧
     (labelsPinned siamese).getD 1 0 ≠ (labelsPinned siamese).getD 3 0 := by decide
+
+/-- **The call sites of one layer module use one output and one weight quantizer object**, in the
+model as in the code (the module is converted once): every call site sits in the sharing component
+of the first one — together with whatever is summed with either call site. -/
+theorem reused_layer_sites_share_out_quantizer (p : Prog) (hwf : WF p) (i : Nat) (hi : i < p.length)
+    (hd : (p.nd i).dup = true) (hl : (p.nd i).kind = .conv ∨ (p.nd i).kind = .linear)
+    (ht : (p.nd i).tf < i) :
+    outQ p (.layer i) = outQ p (.layer (p.nd i).tf) ∧ wQ p i = wQ p (p.nd i).tf := by
+  have h := labels_site p hwf i hi hd hl ht
+  simp [outQ, wQ, h]
+
+/-- `shared` applied to `relu(c1(x))` and to `relu(c2(x))`; only the first result is summed with
+`side(x)`; `d` reads that sum, `e` reads the second result; `d + e` is the output -/
+def splitReuse : Prog :=
+  [{ kind := .input, cin := 3, cout := 3 },
+   { kind := .conv, a := 0, cin := 3, cout := 4, k0 := 3, k1 := 3, o0 := 8, o1 := 8 },        -- c1
+   { kind := .pass, a := 1 },
+   { kind := .conv, a := 2, cin := 4, cout := 4, k0 := 3, k1 := 3, o0 := 8, o1 := 8 },        -- shared, site 1
+   { kind := .conv, a := 0, cin := 3, cout := 4, k0 := 3, k1 := 3, o0 := 8, o1 := 8 },        -- c2
+   { kind := .pass, a := 4 },
+   { kind := .conv, a := 5, cin := 4, cout := 4, k0 := 3, k1 := 3, o0 := 8, o1 := 8,
+     dup := true, ta := 2, tf := 3 },                                                          -- shared, site 2
+   { kind := .conv, a := 0, cin := 3, cout := 4, k0 := 3, k1 := 3, o0 := 8, o1 := 8 },        -- side
+   { kind := .add, a := 3, b := 7 },
+   { kind := .pass, a := 8 },
+   { kind := .conv, a := 9, cin := 4, cout := 2, k0 := 3, k1 := 3, o0 := 8, o1 := 8 },        -- d
+   { kind := .pass, a := 6 },
+   { kind := .conv, a := 11, cin := 4, cout := 2, k0 := 3, k1 := 3, o0 := 8, o1 := 8 },       -- e
+   { kind := .add, a := 10, b := 12 },
+   { kind := .output, a := 13 }]
+
+/-- **Regression witness**: with the call sites merged, `side` (summed with the first call site) and
+the second call site of `shared` use one weight quantizer; with only the fed tensors tied
+(`labelsUnmerged`, the tree at 3725f20) the second call site sat in a component of its own, so the
+module's single weight quantizer could not be the one of both components. -/
+theorem unmerged_call_sites_differ :
+    wQ splitReuse 6 = wQ splitReuse 7 ∧
+    (labelsUnmerged splitReuse).getD 6 0 ≠ (labelsUnmerged splitReuse).getD 3 0 := by decide
 
 /-! ### non-vacuity, and the regression witness for the walk of the pinned tree -/
 
